@@ -104,6 +104,75 @@ theorem normDoc_obs (d : Doc) :
   · split <;> simp
   · simp
 
+/-! ## an inline constant table that the library also knows as a default
+
+`docOk` puts no condition on the CONTENT of an inline table (only: length ≠ 1, the inheritance marker), so
+`parse_ser` / `reserialise` cover a document whose inline table is octet for octet the built default table
+of its type, the table its predecessor carries, or any near miss of those.  The statements below spell that
+out: such a document keeps CDT_LEN and the table on the wire and parses back as "not default". -/
+
+/-- the LRRP document ids that carry a constant table on the wire (not NCDT) -/
+def tableIds : List Nat := [4, 6, 8, 10, 12, 14, 16, 18]
+
+theorem table_ids : (List.range 64).filter (fun i => match configOf i with
+    | .ok (di, _) => !di.ncdt | .error _ => false) = tableIds := by decide
+
+theorem inline_table_on_the_wire (d : Doc) (hok : docOk none d = true)
+    (di : DocId) (cfg : Config) (hcfg : configOf d.id = .ok (di, cfg)) (hn : di.ncdt = false)
+    (hi : d.cdtInherited = false) :
+    d.cdtDefault = false ∧ ∃ ps, writeParts d.parts = .ok ps ∧
+      asBytes d = .ok (writeURaw d.id ++ (writeURaw (writeURaw d.cdt.length ++ (d.cdt ++ ps)).length
+        ++ (writeURaw d.cdt.length ++ (d.cdt ++ ps))))
+      ∧ ∃ x, asBytes d = .ok x ∧ parse x = .ok [d] := by
+  obtain ⟨di', cfg', hcfg', hid, hp, hcdt, b, hb, hbl⟩ := docOk_unfold hok
+  rw [hcfg] at hcfg'
+  have hdi : di' = di := by simp at hcfg'; exact hcfg'.1.symm
+  subst hdi
+  unfold cdtCond at hcdt
+  simp only [hn, hi, Bool.false_eq_true, if_false, Bool.and_eq_true, Bool.not_eq_true', bne_iff_ne, ne_eq,
+    decide_eq_true_eq] at hcdt
+  obtain ⟨⟨hd, _⟩, hl⟩ := hcdt
+  refine ⟨hd, ?_⟩
+  have hwc : writeCdt d = .ok (writeURaw d.cdt.length ++ d.cdt) := by simp [writeCdt, hi, hd, writeU_ok hl]
+  cases hwp : writeParts d.parts with
+  | error e => simp [bodyOf, hwc, hwp] at hb
+  | ok ps =>
+    have hbody : b = writeURaw d.cdt.length ++ (d.cdt ++ ps) := by
+      simp [bodyOf, hwc, hwp] at hb; exact hb.symm
+    have hnorm : normDoc d = d := by simp [normDoc, hcfg, hn]
+    have hbl' : (writeURaw d.cdt.length).length + (d.cdt.length + ps.length) ≤ UINTVAR_MAX := by
+      rw [hbody] at hbl; simpa using hbl
+    refine ⟨ps, rfl, ?_, ?_⟩
+    · simp [asBytes, writeU_ok hid, hwc, hwp, writeU_ok hbl']
+    · have h1 : docsOk none [d] = true := by simp [docsOk, hok]
+      obtain ⟨x, hx, _, hp⟩ := parseDocs_ser [d] none (by simp) h1
+      cases ha : asBytes d with
+      | error e => simp [asBytesAll, ha] at hx
+      | ok y =>
+        have hxy : x = y := by simp [asBytesAll, ha] at hx; exact hx.symm
+        subst hxy
+        refine ⟨x, rfl, ?_⟩
+        have := hp (x.length + 1) (Nat.le_refl _)
+        simpa [parse, hnorm] using this
+
+/-- the hypotheses of `inline_table_on_the_wire` hold for the built default table itself, spelled out inline,
+for every table-carrying document id (alone, and followed by a document that inherits it), and for its
+near misses (one octet shorter / longer) -/
+theorem inline_default_table_canonical :
+    tableIds.all (fun i =>
+      docOk none ⟨i, Gen.Lrrp.constants0Built, false, false, []⟩
+      && docsOk none [⟨i, Gen.Lrrp.constants0Built, false, false, []⟩, ⟨i, Gen.Lrrp.constants0Built, false, true, []⟩]
+      && docOk none ⟨i, Gen.Lrrp.constants0Built.dropLast, false, false, []⟩
+      && docOk none ⟨i, Gen.Lrrp.constants0Built ++ [0], false, false, []⟩) = true := by decide
+
+/-- … and the octets: id, document length 85, CDT_LEN 84, the 84 octets of the table; parsed back as a
+document that is NOT marked "default table", so `as_bytes` writes the table again -/
+theorem inline_default_table_octets :
+    tableIds.all (fun i =>
+      asBytes ⟨i, Gen.Lrrp.constants0Built, false, false, []⟩ == .ok (i :: 85 :: 84 :: Gen.Lrrp.constants0Built)
+      && parse (i :: 85 :: 84 :: Gen.Lrrp.constants0Built) == .ok [⟨i, Gen.Lrrp.constants0Built, false, false, []⟩]) = true := by
+  decide
+
 /-! ## the token lookup API -/
 
 /-- a document assembled from `get_token` results, whose parts are canonical for the document's table,
@@ -130,6 +199,35 @@ theorem get_token_sound (isReq : Bool) (k : Key) (v : Val) (attrs : List (Key ×
     ∃ tc ∈ (knownTokens isReq).flatten, k.matchesId tc.id tc.name = true ∧ p.tokenId = tc.id
       ∧ p.ty = tc.ty ∧ p.length = tc.length ∧ p.value = v :=
   getToken_sound isReq k v attrs p h
+
+/-- lookup by number: the definition returned is the one the parser uses for that id in documents of the
+requested kind (request: `elements0`, answer / report: `elements1`) — whatever was parsed or looked up
+before (the model has no state: `getToken` is a function of its arguments and the extracted tables) -/
+theorem get_token_by_number (isReq : Bool) (id : Nat) (v : Val) (attrs : List (Key × Option Nat)) (p : Part)
+    (h : getToken isReq (.id id) v attrs = .ok p) :
+    ∃ tc, lookupElem (if isReq then Gen.Lrrp.elements0 else Gen.Lrrp.elements1) id = some tc
+      ∧ p.tokenId = id ∧ p.ty = tc.ty ∧ p.length = tc.length ∧ p.value = v := by
+  obtain ⟨tc, hmem, hk, hid, hty, hlen, hv⟩ := getToken_sound isReq (.id id) v attrs p h
+  have hid' : tc.id = id := by simpa [Key.matchesId] using hk
+  have hall : (knownTokens isReq).flatten.all (fun tc => lookupElem (if isReq then Gen.Lrrp.elements0 else Gen.Lrrp.elements1) tc.id == some tc) = true := by
+    cases isReq <;> decide
+  have := List.all_eq_true.mp hall tc hmem
+  refine ⟨tc, ?_, by rw [hid, hid'], hty, hlen, hv⟩
+  rw [← hid']; simpa using this
+
+/-- the token ids that both the request and the answer / report table define with DIFFERENT definitions:
+by number they resolve to the request definition with `is_request` and to the answer definition without -/
+theorem shared_ids_resolve_by_kind :
+    (Gen.Lrrp.elements0.filter (fun t => match lookupElem Gen.Lrrp.elements1 t.id with
+        | some u => u != t | none => false)).map (·.id) = [52, 84, 85, 86, 102, 105, 81]
+    ∧ [52, 84, 85, 86, 102, 105, 81].all (fun i =>
+        (match getToken true (.id i) .none [], lookupElem Gen.Lrrp.elements0 i with
+          | .ok p, some tc => p.ty == tc.ty && p.length == tc.length && p.attrs == tc.attrs.map AttrRef.id
+          | _, _ => false)
+        && (match getToken false (.id i) .none [], lookupElem Gen.Lrrp.elements1 i with
+          | .ok p, some tc => p.ty == tc.ty && p.length == tc.length && p.attrs == tc.attrs.map AttrRef.id
+          | _, _ => false)) = true := by
+  constructor <;> decide
 
 /-- recorded shortcoming 1 (KNOWN_FINDINGS api-length0-explicit-attribute), kernel-checked: token 0x37
 (fixed length 0) given an explicit result-code: the attribute is written, never read back -/
